@@ -408,6 +408,7 @@ pub struct Exec {
     pub build_err: Option<String>,
     /// canary-checked output buffers
     pub check_overrun: bool,
+    pub keep_err_buf: bool,
 }
 
 #[derive(Clone, Debug)]
@@ -420,6 +421,10 @@ pub struct StepRecord {
     pub cipher_from: [usize; 2],
     pub msg_len: usize,
     pub cap: usize,
+    /// the call failed and yet modified the caller's output buffer
+    pub buf_touched_on_err: bool,
+    /// contents of the output buffer after a failed call (only kept when `keep_err_buf`)
+    pub err_buf: Option<Vec<u8>>,
 }
 
 pub fn build_real(cfg: &Config, side: Side, log: &Log) -> Result<HandshakeState, snow::Error> {
@@ -512,6 +517,7 @@ impl Exec {
             uid: 1,
             build_err,
             check_overrun: true,
+            keep_err_buf: false,
         }
     }
 
@@ -620,7 +626,7 @@ impl Exec {
         let pre = self.getters(side);
         let rng0 = self.logs[i].rng_len();
         let cipher_from = [self.logs[0].cipher_len(), self.logs[1].cipher_len()];
-        let mut rec = StepRecord { op: op.clone(), real: Real::Unit, expect: Expect::Unit, rng_drawn: 0, rng_from: rng0, cipher_from, msg_len: 0, cap: 0 };
+        let mut rec = StepRecord { op: op.clone(), real: Real::Unit, expect: Expect::Unit, rng_drawn: 0, rng_from: rng0, cipher_from, msg_len: 0, cap: 0, buf_touched_on_err: false, err_buf: None };
 
         // phase applicability: an op on an endpoint in the wrong phase cannot be issued (the type
         // system forbids it); it is skipped and recorded as such.
@@ -917,6 +923,12 @@ impl Exec {
                 Err(p) => Real::Panic(panic_msg(p)),
             }
         };
+        if !real.is_ok() && buf.iter().any(|b| *b != CANARY) {
+            rec.buf_touched_on_err = true;
+            if self.keep_err_buf {
+                rec.err_buf = Some(buf.clone());
+            }
+        }
         if let Real::Ok(n, _) = &real {
             rec.msg_len = *n;
             if self.check_overrun && buf[(*n).min(capn)..].iter().any(|b| *b != CANARY) {
@@ -1137,6 +1149,12 @@ impl Exec {
                 Err(p) => Real::Panic(panic_msg(p)),
             }
         };
+        if !real.is_ok() && buf.iter().any(|b| *b != CANARY) {
+            rec.buf_touched_on_err = true;
+            if self.keep_err_buf {
+                rec.err_buf = Some(buf.clone());
+            }
+        }
         if let Real::Ok(n, _) = &real {
             if self.check_overrun && buf[(*n).min(capn)..].iter().any(|b| *b != CANARY) {
                 self.push(Cat::Overrun, format!("HsRead {side:?}: bytes beyond the returned length {n} were modified"));
@@ -1264,6 +1282,12 @@ impl Exec {
                 Err(p) => Real::Panic(panic_msg(p)),
             }
         };
+        if !real.is_ok() && buf.iter().any(|b| *b != CANARY) {
+            rec.buf_touched_on_err = true;
+            if self.keep_err_buf {
+                rec.err_buf = Some(buf.clone());
+            }
+        }
         let mut want = None;
         if errs.is_empty() && !self.desync {
             if let Some(ts) = &self.rts[i] {
@@ -1350,6 +1374,12 @@ impl Exec {
                 Err(p) => Real::Panic(panic_msg(p)),
             }
         };
+        if !real.is_ok() && buf.iter().any(|b| *b != CANARY) {
+            rec.buf_touched_on_err = true;
+            if self.keep_err_buf {
+                rec.err_buf = Some(buf.clone());
+            }
+        }
         rec.expect = if errs.is_empty() { Expect::Ok(genuine.clone()) } else { Expect::Err(errs.clone()) };
         if let (Real::Ok(n, _), true) = (&real, errs.is_empty()) {
             if self.check_overrun && buf[(*n).min(capn)..].iter().any(|b| *b != CANARY) {
